@@ -18,6 +18,7 @@ import (
 	"go.uber.org/zap"
 
 	"github.com/ava-labs/hypersdk/internal/emap"
+	"github.com/ava-labs/hypersdk/internal/verifhook"
 )
 
 var (
@@ -113,6 +114,7 @@ func (v *TimeValidityWindow[T]) Complete(ctx context.Context, block ExecutionBlo
 
 func (v *TimeValidityWindow[T]) Accept(blk ExecutionBlock[T]) {
 	// Grab the lock before modifiying seen
+	verifhook.AwaitLock("validitywindow.Accept", 0, &v.mu)
 	v.mu.Lock()
 	defer v.mu.Unlock()
 
@@ -127,6 +129,7 @@ func (v *TimeValidityWindow[T]) Accept(blk ExecutionBlock[T]) {
 }
 
 func (v *TimeValidityWindow[T]) AcceptHistorical(blk ExecutionBlock[T]) {
+	verifhook.AwaitLock("validitywindow.AcceptHistorical", 0, &v.mu)
 	v.mu.Lock()
 	defer v.mu.Unlock()
 
@@ -145,6 +148,7 @@ func (v *TimeValidityWindow[T]) VerifyExpiryReplayProtection(
 	_, span := v.tracer.Start(ctx, "Chain.VerifyExpiryReplayProtection")
 	defer span.End()
 
+	verifhook.AwaitLock("validitywindow.VerifyExpiryReplayProtection", 0, &v.mu)
 	v.mu.Lock()
 	lastAcceptedBlockHeight := v.lastAcceptedBlockHeight
 	v.mu.Unlock()
@@ -200,6 +204,7 @@ func (v *TimeValidityWindow[T]) isRepeat(
 ) (set.Bits, error) {
 	marker := set.NewBits()
 
+	verifhook.AwaitLock("validitywindow.isRepeat", 0, &v.mu)
 	v.mu.Lock()
 	defer v.mu.Unlock()
 
